@@ -46,10 +46,14 @@ func (o *Optimizer) checkFunctionCalls(stmt Statement) error {
 	var (
 		exprs []Expression
 		err   error
+		// Aggregate functions are computed by the aggregate plan for the
+		// select fields only: the first nAggrOK expressions
+		nAggrOK = 0
 	)
 	switch vstmt := stmt.(type) {
 	case *SelectStmt:
 		exprs = append(exprs, vstmt.Fields...)
+		nAggrOK = len(vstmt.Fields)
 		if vstmt.Where != nil && vstmt.Where.Expr != nil {
 			exprs = append(exprs, vstmt.Where.Expr)
 		}
@@ -64,14 +68,20 @@ func (o *Optimizer) checkFunctionCalls(stmt Statement) error {
 	case *RemoveStmt:
 		exprs = append(exprs, vstmt.Keys...)
 	}
-	for _, expr := range exprs {
-		expr.Walk(func(e Expression) bool {
+	for i, expr := range exprs {
+		aggrOK := i < nAggrOK
+		var walk WalkCallback
+		walk = func(e Expression) bool {
 			if err != nil {
 				return false
 			}
 			switch fc := e.(type) {
 			case *FieldReferenceExpr:
-				// The referenced field is checked where it is defined
+				// The referenced field is checked where it is defined, but
+				// outside the select fields it must not lead to an aggregate
+				if !aggrOK {
+					fc.FieldExpr.Walk(walk)
+				}
 				return false
 			case *FunctionCallExpr:
 				fname, ferr := GetFuncNameFromExpr(fc)
@@ -86,7 +96,9 @@ func (o *Optimizer) checkFunctionCalls(stmt Statement) error {
 						err = NewSyntaxError(fc.GetPos(), "Function %s require at least %d arguments but got %d", fobj.Name, fobj.NumArgs, len(fc.Args))
 					}
 				} else if aobj, have := GetAggrFunctionByName(fname); have {
-					if !aobj.VarArgs && len(fc.Args) != aobj.NumArgs {
+					if !aggrOK {
+						err = NewSyntaxError(fc.GetPos(), "Aggregate function %s is only allowed in select fields", aobj.Name)
+					} else if !aobj.VarArgs && len(fc.Args) != aobj.NumArgs {
 						err = NewSyntaxError(fc.GetPos(), "Function %s require %d arguments but got %d", aobj.Name, aobj.NumArgs, len(fc.Args))
 					}
 				} else {
@@ -94,7 +106,8 @@ func (o *Optimizer) checkFunctionCalls(stmt Statement) error {
 				}
 			}
 			return err == nil
-		})
+		}
+		expr.Walk(walk)
 		if err != nil {
 			return err
 		}
